@@ -4,9 +4,10 @@ from props.mandoline_kernels import kernel_tasks, kernel_canaries
 
 ASSUMPTIONS = A01 + ["coordinates and interpolation weights are real numbers (machine arithmetic treated as mathematical); "
                      "np.isclose(a,b) is |a-b| <= 1e-8 + 1e-5|b|",
-                     "the per-level reduction (painting order: finer levels after coarser ones) of reducemp_data_ortho is covered by "
-                     "the bounded run-time layer (np.empty poisoned with NaN in the harness); box selection "
-                     "(compute_mpinput_3d) and the box worker (slice_box) are under contract",
+                     "reducemp_data_ortho: painting ONE worker output into the plane arrays and the interpolation statements are "
+                     "under contract (fragments, np.empty as unknown values with an initialised bit); that the levels are painted "
+                     "coarse to fine over all outputs (the double loop) is covered by the bounded run-time layer (np.empty poisoned "
+                     "with NaN in the harness); box selection (compute_mpinput_3d) and the box worker (slice_box) are under contract",
                      "slice_box: the number of requested fields is a skeleton parameter (1, 2, 1+None); box geometry, data, "
                      "level, refinement factor and plane position are unbounded",
                      "ghost enumeration (CNT, IDX) of a filtered list: definitional facts instantiated by hand (spec/filt.py)"]
@@ -16,13 +17,15 @@ TRUSTED = T01 + ["numpy: linspace, where, isclose, repeat, reshape contracts"]
 def tasks(tier):
     from props.mandoline_parents import parent_tasks
     from props.mandoline_boxes import box_tasks
-    return kernel_tasks("C07", ["expand", "coords"]) + parent_tasks("C07") + box_tasks("C07", ["slice"])
+    from props.mandoline_parents import kernel_tasks2
+    return kernel_tasks("C07", ["expand", "coords"]) + parent_tasks("C07") + box_tasks("C07", ["slice"]) + kernel_tasks2("C07", ("ortho", "paint"))
 
 
 def canaries(tier):
     from props.mandoline_parents import parent_canaries
     from props.mandoline_boxes import box_canaries
-    return kernel_canaries(["expand", "coords"]) + parent_canaries() + box_canaries(["slice"])
+    from props.mandoline_parents import kernel_canaries2
+    return kernel_canaries(["expand", "coords"]) + parent_canaries() + box_canaries(["slice"]) + kernel_canaries2() + kernel_canaries2(("paint",))
 
 
 SCENARIO_TIMEOUT = 500
